@@ -435,6 +435,103 @@ def run(ctx):
         except Exception as e:
             viol('writers/interleaved/exception:%s' % type(e).__name__, 'interleaved writers raised %r' % (e,), case, exc=e)
 
+    # ------------------------------------------------------------- the same without the tape: nothing asks for a position in between
+    # The tape monitor reads the position before and after every primitive; a writer that defers work until somebody asks for
+    # its position or its bytes never shows that under the tape.  Here the wrappers are switched off (tape.RECORD) and the
+    # writers are only looked at when they are complete: 2-4 writers alive at the same time and filled alternately with fields
+    # of every kind, writers that are dropped half-way (as after a refused encode) and fresh writers started after them.
+    tape.RECORD['on'] = False
+    try:
+        for k in range(60 if ctx.quick else 600):
+            nw = rng.randint(1, 4)
+            ws = [get_bit_writer() for _ in range(nw)]
+            ms = ['' for _ in range(nw)]
+            steps = []
+            case = dict(kind='unobserved-writers', writers=nw)
+            ctx.count('unobserved_writer_cases')
+            try:
+                for step in range(rng.randint(3, 16)):
+                    j = rng.randrange(nw)
+                    kind = rng.choice(['uint', 'uint', 'int', 'bool', 'bin', 'bytes', 'skip', 'drop-and-restart'])
+                    if kind == 'drop-and-restart':
+                        # a writer abandoned with fields in it; its successor starts empty
+                        ws[j] = None
+                        ws[j] = get_bit_writer()
+                        ms[j] = ''
+                    elif kind == 'uint':
+                        n = rng.randint(1, 40)
+                        v = rng.getrandbits(n)
+                        ws[j].write_uint(v, n)
+                        ms[j] += ubits(v, n)
+                    elif kind == 'int':
+                        n = rng.randint(2, 24)
+                        v = rng.randint(-(2 ** (n - 1) - 1), 2 ** (n - 1) - 1)
+                        ws[j].write_int(v, n)
+                        ms[j] += ibits(v, n)
+                    elif kind == 'bool':
+                        v = rng.random() < 0.5
+                        ws[j].write_bool(v)
+                        ms[j] += '1' if v else '0'
+                    elif kind == 'bin':
+                        n = rng.randint(1, 12)
+                        v = ''.join(rng.choice('01') for _ in range(n))
+                        ws[j].write_bin(v)
+                        ms[j] += v
+                    elif kind == 'bytes':
+                        n = rng.randint(1, 5)
+                        v = bytes(rng.getrandbits(8) for _ in range(n))
+                        ws[j].write_bytes(v, n)
+                        ms[j] += ''.join(ubits(c, 8) for c in v)
+                    else:
+                        n = rng.randint(1, 9)
+                        ws[j].skip(n)
+                        ms[j] += '0' * n
+                    steps.append('w%d:%s' % (j, kind))
+                order = list(range(nw))
+                rng.shuffle(order)
+                for j in order:
+                    ctx.evaluated(('unobserved', k, j, ms[j]), True)
+                    nbits = len(ms[j])
+                    fin = finish(ws[j], ms[j])          # pads writer and model to whole octets
+                    ms[j] = fin
+                    got = ws[j].to_bytes()
+                    if got != tobytes(fin):
+                        viol('writers/unobserved/bytes', 'writer %d of %d alive at the same time (nothing asked for a position in between) holds %d octets '
+                             '%s..., it was given %d bits %s... (steps %r)' % (j, nw, len(got), got.hex()[:24], nbits, tobytes(fin).hex()[:24], steps[-10:]),
+                             dict(case, steps=steps))
+                        break
+                    if ws[j].get_pos() != len(ms[j]):
+                        viol('writers/unobserved/position', 'writer %d of %d is at bit %d after %d bits were written' % (j, nw, ws[j].get_pos(), len(ms[j])),
+                             dict(case, steps=steps))
+                        break
+            except Exception as e:
+                viol('writers/unobserved/exception:%s' % type(e).__name__, 'writers used without the tape raised %r after %r' % (e, steps[-6:]), case, exc=e)
+        # readers without the tape: several cursors over equal bytes, positions compared at the end only
+        for k in range(40 if ctx.quick else 400):
+            data = bytes(rng.getrandbits(8) for _ in range(rng.randint(4, 20)))
+            bits = ''.join(ubits(c, 8) for c in data)
+            rs = [[get_bit_reader(data if rng.random() < 0.5 else bytes(bytearray(data))), 0, []] for _ in range(rng.randint(2, 3))]
+            ctx.count('unobserved_reader_cases')
+            ctx.evaluated(('unobserved-readers', data.hex()), True)
+            try:
+                for step in range(rng.randint(4, 14)):
+                    r = rng.choice(rs)
+                    left = len(bits) - r[1]
+                    if left <= 0:
+                        continue
+                    n = rng.randint(1, min(left, 20))
+                    r[2].append((r[0].read_uint(n), int(bits[r[1]:r[1] + n], 2)))
+                    r[1] += n
+                for j, r in enumerate(rs):
+                    if any(g != w for g, w in r[2]) or r[0].get_pos() != r[1]:
+                        viol('readers/unobserved', 'reader %d of %d over equal bytes (no position asked in between) read %r, expected %r; position %d, expected %d'
+                             % (j, len(rs), [g for g, w in r[2]][:6], [w for g, w in r[2]][:6], r[0].get_pos(), r[1]), dict(kind='unobserved-readers', hex=data.hex()))
+                        break
+            except Exception as e:
+                viol('readers/unobserved/exception:%s' % type(e).__name__, 'readers used without the tape raised %r' % (e,), dict(kind='unobserved-readers', hex=data.hex()), exc=e)
+    finally:
+        tape.RECORD['on'] = True
+
     # ------------------------------------------------------------- text that has no octet form
     # A character field given as text with a character beyond U+00FF cannot be written as it is.  The statement leaves two
     # outcomes: the value is refused ("values that do not fit are refused"), or it is accepted and then the field still has
